@@ -1,6 +1,6 @@
 (* C03 — the comparison evaluated on every run.
    A case is one (printer configuration, object) pair with what the implementation did: the text
-   Printer.Append produced (None: it panicked) and what slip.Read made of that text. *)
+   Printer.Append produced (None: it panicked; the model printer never does) and what slip.Read made of that text. *)
 From C03 Require Import Model Spec.
 
 Record case := Case { k_cfg : pcfg; k_obj : obj; k_text : option (list byte); k_read : option (list obj) }.
@@ -10,8 +10,7 @@ Definition opt_bytes_eqb (a b : option (list byte)) : bool :=
 Definition read_eqb (a b : option (list obj)) : bool :=
   match a, b with Some x, Some y => list_eqb obj_eqb x y | None, None => true | _, _ => false end.
 
-Definition model_text (c : pcfg) (x : obj) : option (list byte) :=
-  if print_faults c x then None else Some (print c x).
+Definition model_text (c : pcfg) (x : obj) : option (list byte) := Some (print c x).
 Definition model_read (t : option (list byte)) : option (list obj) :=
   match t with Some bs => read_all bs | None => None end.
 
